@@ -148,6 +148,19 @@ Definition safe_divide_root (msq den mn : Q) : val :=
 Definition safe_divide_spec (num den mn : Q) : ratio :=
   if Qle_bool den mn then RNone else RNum (Qred (num / den)).
 
+(* the repaired form of the root ratio (what the statement asks) *)
+Definition safe_divide_root_spec (msq den mn : Q) : val :=
+  if Qle_bool den mn then Undef else root_div msq den.
+
+(* Two division policies are modelled: [AsCoded] is _safe_divide as it stands in the repository,
+   [Repaired] is the statement's rule (the proposed one-line repair: denominator <= min -> None).
+   The correspondence harness probes which of the two the code under test implements. *)
+Inductive policy := AsCoded | Repaired.
+Definition sdiv (pl : policy) (num den mn : Q) : ratio :=
+  match pl with AsCoded => safe_divide num den mn | Repaired => safe_divide_spec num den mn end.
+Definition sdiv_root (pl : policy) (msq den mn : Q) : val :=
+  match pl with AsCoded => safe_divide_root msq den mn | Repaired => safe_divide_root_spec msq den mn end.
+
 (* ------------------------------------------------------------------ BaselineMetrics *)
 
 Definition ddof_of (n p : Z) : Z := if (n - p <? 1)%Z then 1%Z else (n - p)%Z.
@@ -188,11 +201,11 @@ Definition mape_of (d : list (Q * Q)) (mn : Q) : val :=
   | _ => Num (Qred (qsum (map (fun r => Qabs ((fst r - snd r) / fst r)) nz) / qlen nz))
   end.
 
-Definition r_squared_adj_of (r2 : option Q) (n ddof : Z) (mn : Q) : val :=
+Definition r_squared_adj_of (pl : policy) (r2 : option Q) (n ddof : Z) (mn : Q) : val :=
   match r2 with
   | None => NaN
   | Some r =>
-      match safe_divide ((1 - r) * inject_Z (n - 1)) (inject_Z (ddof - 1)) mn with
+      match sdiv pl ((1 - r) * inject_Z (n - 1)) (inject_Z (ddof - 1)) mn with
       | RNone => Undef
       | RNum q => Num (Qred (1 - q))
       | RDivZero s => match divzero_val s with Inf neg => Inf (negb neg) | v => v end
@@ -212,7 +225,7 @@ Record bmetrics := {
 }.
 
 (* [d] : the finite (observed, predicted) pairs, not empty; [p] = num_model_params; [mn] = _min_denominator *)
-Definition baseline (d : list (Q * Q)) (p : Z) (mn : Q) : bmetrics :=
+Definition baseline_p (pl : policy) (d : list (Q * Q)) (p : Z) (mn : Q) : bmetrics :=
   let obs := observed_of d in
   let res := residuals_of d in
   let n := zlen d in
@@ -230,24 +243,27 @@ Definition baseline (d : list (Q * Q)) (p : Z) (mn : Q) : bmetrics :=
   {| b_n := n; b_ddof := ddof; b_obs := co; b_pred := column (predicted_of d); b_res := cr;
      b_rho := autocorr1 res;
      b_mae := mae; b_mbe := mbe; b_sse := sse; b_mse := mse; b_rmse_adj_sq := msa;
-     b_nmae := ratio_val (safe_divide mae mo mn); b_pnmae := ratio_val (safe_divide mae io mn);
-     b_nmbe := ratio_val (safe_divide mbe mo mn); b_pnmbe := ratio_val (safe_divide mbe io mn);
+     b_nmae := ratio_val (sdiv pl mae mo mn); b_pnmae := ratio_val (sdiv pl mae io mn);
+     b_nmbe := ratio_val (sdiv pl mbe mo mn); b_pnmbe := ratio_val (sdiv pl mbe io mn);
      b_rmse := Root false mse; b_rmse_adj := Root false msa;
-     b_cvrmse := safe_divide_root mse mo mn; b_cvrmse_adj := safe_divide_root msa mo mn;
-     b_pnrmse := safe_divide_root mse io mn; b_pnrmse_adj := safe_divide_root msa io mn;
+     b_cvrmse := sdiv_root pl mse mo mn; b_cvrmse_adj := sdiv_root pl msa mo mn;
+     b_pnrmse := sdiv_root pl mse io mn; b_pnrmse_adj := sdiv_root pl msa io mn;
      b_r2 := r2; b_r_squared := match r2 with Some r => Num r | None => NaN end;
-     b_r_squared_adj := r_squared_adj_of r2 n ddof mn |}.
+     b_r_squared_adj := r_squared_adj_of pl r2 n ddof mn |}.
+(* the repository as it stands *)
+Definition baseline : list (Q * Q) -> Z -> Q -> bmetrics := baseline_p AsCoded.
 
 (* the statistics downstream of n' (given as a rational witness, validated by [nprime_exact]) *)
 Definition rmse_autocorr_adj_sq (m : bmetrics) (np : Q) (p : Z) : Q := Qred (b_sse m / ddof_autocorr_of np p).
-Definition cvrmse_autocorr_adj (m : bmetrics) (np : Q) (p : Z) (mn : Q) : val :=
-  safe_divide_root (rmse_autocorr_adj_sq m np p) (c_mean (b_obs m)) mn.
-Definition pnrmse_autocorr_adj (m : bmetrics) (np : Q) (p : Z) (mn : Q) : val :=
-  safe_divide_root (rmse_autocorr_adj_sq m np p) (c_iqr (b_obs m)) mn.
+Definition cvrmse_autocorr_adj (pl : policy) (m : bmetrics) (np : Q) (p : Z) (mn : Q) : val :=
+  sdiv_root pl (rmse_autocorr_adj_sq m np p) (c_mean (b_obs m)) mn.
+Definition pnrmse_autocorr_adj (pl : policy) (m : bmetrics) (np : Q) (p : Z) (mn : Q) : val :=
+  sdiv_root pl (rmse_autocorr_adj_sq m np p) (c_iqr (b_obs m)) mn.
 
 (* BaselineMetrics(df=rows, num_model_params=p) *)
-Definition baseline_of_rows (rows : list (cell * cell)) (p : Z) (mn : Q) : option bmetrics :=
-  match finite_pairs rows with [] => None | d => Some (baseline d p mn) end.
+Definition baseline_of_rows_p (pl : policy) (rows : list (cell * cell)) (p : Z) (mn : Q) : option bmetrics :=
+  match finite_pairs rows with [] => None | d => Some (baseline_p pl d p mn) end.
+Definition baseline_of_rows := baseline_of_rows_p AsCoded.
 
 (* ------------------------------------------------------------------ hourly model *)
 
@@ -256,8 +272,9 @@ Definition baseline_of_rows (rows : list (cell * cell)) (p : Z) (mn : Q) : optio
 Definition hrow := (cell * cell * bool)%type.
 Definition measured_rows (rows : list hrow) : list (cell * cell) :=
   map fst (filter (fun r => negb (snd r)) rows).
-Definition hourly_baseline_metrics (rows : list hrow) (p : Z) (mn : Q) : option bmetrics :=
-  baseline_of_rows (measured_rows rows) p mn.
+Definition hourly_baseline_metrics_p (pl : policy) (rows : list hrow) (p : Z) (mn : Q) : option bmetrics :=
+  baseline_of_rows_p pl (measured_rows rows) p mn.
+Definition hourly_baseline_metrics := hourly_baseline_metrics_p AsCoded.
 
 (* v < t for a reported value (None is excluded by the caller; NaN compares false) *)
 Definition val_ltb (v : val) (t : Q) : bool :=
